@@ -309,16 +309,44 @@ class Analyzer:
 
         return c.stmt_nodes_where(lambda a: node_contains_call(a, pred))
 
-    def test_nodes(self, f, pred):
-        """'test' nodes of f's CFG whose atomic condition satisfies pred."""
+    def test_nodes(self, f, pred, expand='paths'):
+        """'test' nodes of f's CFG whose atomic condition satisfies pred.
+        A condition on a local that caches an access path (x = a.b; if x:)
+        is a condition on that path; expand='all' also looks through locals
+        bound to any expression, expand=None switches this off."""
         c = self.cfg(f)
-        return [n for n in c.nodes.values()
-                if n.kind == 'test' and pred(n.ast)]
+        from .rules import substitute_locals
 
-    def branch_nodes(self, f, pred, value):
+        def matches(n):
+            e = n.ast
+            if pred(e):
+                return n
+            # a condition on a local that caches an expression is a
+            # condition on that expression
+            if expand and any(isinstance(x, ast.Name) for x in ast.walk(e)):
+                e2 = substitute_locals(f, e, paths_only=expand != 'all')
+                if src(e2) != src(e):
+                    try:
+                        if pred(e2):
+                            import copy
+                            n2 = copy.copy(n)
+                            n2.matched = e2  # what the predicate accepted
+                            return n2
+                    except (AttributeError, IndexError, TypeError):
+                        return None
+            return None
+        out = []
+        for n in c.nodes.values():
+            if n.kind == 'test':
+                m = matches(n)
+                if m is not None:
+                    out.append(m)
+        return out
+
+    def branch_nodes(self, f, pred, value, expand='paths'):
         c = self.cfg(f)
         out = []
-        for t in self.test_nodes(f, pred):
+        for t in self.test_nodes(f, pred, expand):
             out.extend(c.branch(t, value))
         return out
 
